@@ -3,6 +3,7 @@
 mod dump;
 mod history;
 mod paths;
+mod threads;
 mod universe;
 
 fn main() {
@@ -17,6 +18,7 @@ fn main() {
         "paths" => paths::main(rest),
         "universe" => dump::main(rest),
         "history" => history::main(rest),
+        "threads" => threads::main(rest),
         _ => {
             eprintln!("usage: rt <paths|...> ...");
             2
